@@ -27,7 +27,8 @@ import time
 
 from . import common
 
-BAD = ("PANIC", "CRASH", "WRONG", "INTERNAL")
+# HANG: a one-program template that answered neither in 10 s nor, run again, in 30 s (deadlock / endless loop)
+BAD = ("PANIC", "CRASH", "WRONG", "INTERNAL", "HANG")
 RACE_SIG = "panic: Too much mem released|runtime.Thread.end(via ReleaseMem)"
 
 
@@ -154,8 +155,7 @@ def do_templates(ctx, lines):
         ctx.count("templates:%s" % cls)
     first_bad = {}
     for name, n, cls, detail in rows:
-        hang = cls == "TIMEOUT" and name.startswith("hang-")  # templates that must answer at once
-        if (cls in BAD or hang) and name not in first_bad:
+        if cls in BAD and name not in first_bad:
             first_bad[name] = (n, cls, detail)
     for name, (n, cls, detail) in first_bad.items():
         if name in mins:
@@ -168,7 +168,7 @@ def do_templates(ctx, lines):
     for name, n, cls, detail in rows[:: max(1, len(rows) // 4)][:4]:
         ctx.sample({"template": name, "N": n, "class": cls, "detail": detail[:80]})
     ctx.extra["templates_inconclusive_timeouts"] = sorted({"%s:%d" % (n, k) for n, k, c, d in rows
-                                                            if c == "TIMEOUT" and not n.startswith("hang-")})
+                                                            if c == "TIMEOUT"})
 
 
 def do_calls(ctx, lines):
@@ -256,7 +256,8 @@ def run(ctx):
         "outside the modelled components (opcode field encoders, compile-path limit checks) C04 is exploration: the search "
         "covers only the inputs listed in coverage.input_distribution",
         "memory exhaustion in a context WITHOUT a memory limit is the host's choice and not counted (pure Lua recursion has no depth limit in golua)",
-        "TIMEOUT of a template child is inconclusive (listed under templates_inconclusive_timeouts), not a violation",
+        "TIMEOUT of a size-parameterised template child is inconclusive (listed under templates_inconclusive_timeouts); "
+        "a one-program template that does not answer in 10 s and again in 30 s is class HANG, a violation",
         "fatal 'out of memory' is observed under RLIMIT_AS=8GiB in the child processes",
         "load() of corrupted binary chunks is only checked not to crash at load time; such chunks are not executed",
     ]
@@ -265,9 +266,13 @@ def run(ctx):
     for m in msgs:
         if " Opcode." in m or "type Reg" in m:
             ctx.obligations.append({"name": "translate:" + m.split(":")[0].split(" ")[-1], "ok": False, "axioms": [], "note": m})
-    common.prove(ctx)
-    common.build_oracle()
-    h = common.build_go("c04", "cmd/c04")
+    # the harness phases only need the Go binary: they are started first and the proofs are re-checked
+    # (and the oracle rebuilt) while they run; the oracle is needed for the limits comparison at the end
+    try:
+        h = common.build_go("c04", "cmd/c04")
+    except common.BuildError:
+        common.prove(ctx)
+        raise
     tier = ctx.tier
     t0 = time.time()
     files = corpus_files()
@@ -283,6 +288,13 @@ def run(ctx):
     if only:
         ctx.extra["phases_restricted_to"] = only
     procs = {k: start(h, a) for k, a in allp.items() if not only or k in only.split(",")}
+    try:
+        common.prove(ctx)
+        common.build_oracle()
+    except BaseException:
+        for p, o, e in procs.values():
+            p.kill()
+        raise
     res = {}
     for name, (p, o, e) in procs.items():
         res[name], errtxt = finish_proc(p, o, e, budget, name)
